@@ -103,6 +103,14 @@ class KDTree:
         pts_ax = self.points[pt_idx,axis] # 1D array of the considered coordinate to split 
         pivot = self._find_pivot(pts_ax)
         pivot_filter = pts_ax <= pivot
+        if pivot_filter.all() or not pivot_filter.any():
+            # degenerate split: the pivot does not separate the points (repeated coordinates along this axis).
+            # Split at the median rank instead, so that both children are non-empty and the construction terminates.
+            order = np.argsort(pts_ax, kind="stable")
+            half = pts_ax.size//2
+            pivot = pts_ax[order[half-1]]
+            pivot_filter = np.zeros(pts_ax.size, dtype=bool)
+            pivot_filter[order[:half]] = True
         idx_less = np.extract(pivot_filter, pt_idx)
         idx_more = np.extract(~pivot_filter, pt_idx)
         return pivot, idx_less, idx_more
